@@ -264,7 +264,16 @@ func c33Case(rt *rapid.T, rec *vstat.Rec) {
 		return "C33/recovered-data-differs"
 	}
 	if err := s2.Open(); err != nil {
-		if !strings.Contains(err.Error(), "MSRW conflict") {
+		// Two faces of the same race between the reaper (woken by the recovery
+		// snapshot once >= 4 snapshots exist) and raft's start-up: List fails
+		// with "MSRW conflict", or List succeeds and the listed snapshot is
+		// consolidated away before raft opens it ("failed to load any existing
+		// snapshots"). The second face is only attributed to the race when the
+		// reaper must have been woken (>= 3 snapshots before the recovery); the
+		// retried start below still has to produce the right data.
+		reapRace := strings.Contains(err.Error(), "MSRW conflict") ||
+			(nSnaps >= 3 && strings.Contains(err.Error(), "failed to load any existing snapshots"))
+		if !reapRace {
 			fail("C33/recovery-open-failed", "Open with peers.json failed: %v", err)
 		}
 		// the snapshot written by the recovery wakes the snapshot store's
